@@ -216,6 +216,53 @@ def rule_e_trivial(ctx, units):
                 ctx.ob("C13.e-trivial-changes-nothing", f.qn, "empty-body", not stmts, f.where(), "body is empty" if not stmts else "trivial normalisation's %s has statements" % f.short)
 
 
+STATE_EXEMPT = {
+    "stir::BinNormalisationSPECT::resample_uniformity": "SPECT normalisation is not among the kinds C13 names; it resamples its uniformity table lazily, once, with the first caller's tangential size (side observation in DESIGN.md, not claimed)",
+}
+
+
+def rule_f_no_hidden_state(ctx, fns):
+    """apply / undo / get_bin_efficiency (and the helpers of their own class they call) must not assign members of *this: a value
+    remembered from one call (a cached clone, a remembered pointer, a flag) makes the factor used for a bin depend on what the object
+    was used for before, so undo no longer multiplies a bin by ONE fixed factor.  Calls through a pointer member (the projector, the
+    factor data) are not assignments of the member."""
+    byqn = {}
+    for f in fns:
+        if f.body is not None:
+            byqn.setdefault(f.qn, []).append(f)
+    ENTRY = ("apply", "undo", "get_bin_efficiency", "apply_only_first", "undo_only_first", "apply_only_second", "undo_only_second")
+    roots = [f for f in fns if f.body is not None and f.short in ENTRY and "BinNormalisation" in (f.cls or "")]
+    seen, todo, reach = set(), [(f, f) for f in roots], []
+    while todo:
+        f, via = todo.pop()
+        k = (f.qn, f.sig)
+        if k in seen:
+            continue
+        seen.add(k)
+        reach.append((f, via))
+        for c in f.calls():
+            if c.k == "CXXMemberCallExpr" and c.c and c.c[0].k == "CXXThisExpr" and c.callee in byqn:
+                todo += [(g, via) for g in byqn[c.callee]]
+    n = 0
+    for f, via in sorted(reach, key=lambda x: (x[0].qn, x[0].sig)):
+        writes = []
+        for m in f.walk():
+            for e in written_lvalues(m):
+                e2 = e.strip()
+                if e2.k == "MemberExpr" and e2.c and e2.c[0].k == "CXXThisExpr" and e2.get("mk") == "field":
+                    t = e2.type or ""
+                    if m.k == "CXXMemberCallExpr" and "*" in t.split("<")[0]:
+                        continue  # call through a raw pointer member: the pointee, not the member
+                    writes.append((e2.get("n"), m))
+        fid = f.qn + "(" + f.sig[:30] + ")"
+        if f.qn in STATE_EXEMPT:
+            ctx.note("C13.f exempt %s: %s" % (f.qn, STATE_EXEMPT[f.qn]))
+            continue
+        ctx.ob("C13.f-no-hidden-state", fid, "assigns-no-member", not writes, (writes[0][1] if writes else f).where() if writes else f.where(), "assigns no member of the normalisation object (reached from %s)" % via.short if not writes else "member %s is assigned at line %d in a function reached from %s: what a bin is multiplied with depends on the object's history" % (writes[0][0], writes[0][1].line, via.qn))
+        n += 1
+    return n
+
+
 def run(ctx):
     ctx.explanation = (
         "Decides, for every BinNormalisation class compiled in this build: (a) apply and undo are duals - the argument is modified the "
@@ -237,6 +284,8 @@ def run(ctx):
     rule_c_check_first(ctx, fns)
     rule_d_setup(ctx, fns)
     rule_e_trivial(ctx, units)
+    rule_f_no_hidden_state(ctx, fns)
+    ctx.require_count("C13.f-no-hidden-state", 25)
     ctx.require_count("C13.a-apply-undo-dual", 10)
     ctx.require_count("C13.b-chain-product", 3)
     ctx.require_count("C13.c-check-before-use", 8)
